@@ -408,6 +408,12 @@ impl<'c> Exec<'c> {
         if clock.fired {
             self.stats.faults_fired += 1;
         }
+        if clock.capped {
+            // the cap on the whole operation is not a liveness verdict
+            self.inconclusive = true;
+            self.stats.inconclusive += 1;
+            return (true, false);
+        }
         (clock.fired, clock.exhausted)
     }
 
@@ -804,10 +810,11 @@ impl<'c> Exec<'c> {
     }
 
     fn op_iterate<B: Brancher>(&mut self, b: &mut B, max: usize, interrupt: Option<u64>) -> V<()> {
-        // the step budget of an enumeration grows with the number of solutions it has to produce
-        // (each one is a solve of its own, on a longer clause database)
-        let wanted = (self.refm.sols.len().min(max) as u64).saturating_add(1);
-        let mut clock = FaultClock::new(interrupt, self.case.budget.saturating_mul(4).saturating_add(wanted.saturating_mul(5_000)));
+        // the step budget of an enumeration is per solution: each `next_solution` is a solve of
+        // its own and has to make progress within the budget
+        let mut clock = FaultClock::new(interrupt, self.case.budget.saturating_mul(4));
+        let progress = clock.progress.clone();
+        clock.total_cap = self.case.budget.saturating_mul(12);
         let mut got: Vec<Vec<i32>> = vec![];
         let mut finished = false;
         let mut unknown = false;
@@ -826,6 +833,7 @@ impl<'c> Exec<'c> {
                         verif_hooks::mark(n as u64);
                         raw.push(s);
                         n += 1;
+                        progress.set(true);
                     }
                     IteratedSolution::Finished => {
                         finished = true;
